@@ -235,6 +235,10 @@ func (list *List[T]) Insert(index int, values ...T) {
 		return
 	}
 
+	if len(values) == 0 {
+		return
+	}
+
 	list.size += len(values)
 
 	var beforeElement *element[T]
